@@ -229,7 +229,7 @@ class G:
                   "```", "   ```", "  ````", "~~~", "   ~~~", " ~~~~", "    ```", "``` x",
                   # lines that only look blank: form feed, vertical tab, no-break space, NEL, em space are not CommonMark white space
                   "\x0c", "\x0b", "\u00a0", "\u0085", "\u2003", "\x0c \x0c"]
-    INFOS = [("", ""), ("", ""), ("go", "go"), ("c++", "c++"), ("rust extra words", "rust"), ("c\\+\\+", "c++"), ("a&amp;b", "a&b"), ("x\\_y z", "x_y"), ("\\#lang", "#lang"), ("q&quot;", "q\"")]
+    INFOS = [("", ""), ("", ""), ("go", "go"), ("c++", "c++"), ("rust extra words", "rust"), ("c\\+\\+", "c++"), ("a&amp;b", "a&b"), ("x\\_y z", "x_y"), ("\\#lang", "#lang"), ("q&quot;", "q\""), ("C:\\temp\\dir extra", "C:\\temp\\dir"), ("tex\\a", "tex\\a")]
 
     def fenced(self):
         ch = self.r.choice("`~")
